@@ -142,6 +142,12 @@ Proof.
   - destruct (assoc_get key d) as [[|c v']|]; discriminate.
 Qed.
 
+(* reads on one request are independent of each other *)
+Lemma reads_independent hdr reads :
+  get_cookie_seq val mac loads hdr reads
+  = List.map (fun r => get_cookie val mac loads hdr (fst r) (snd r)) reads.
+Proof. induction reads as [|[n s] r IH]; simpl; [reflexivity | now rewrite IH]. Qed.
+
 Hypothesis mac_bytes : forall k m, bytes_ok (mac k m).
 
 (* payload changed, signature kept: acceptance IS a MAC collision *)
